@@ -134,3 +134,36 @@ def roundtrip_template(ct):
     d = tv.scratch_dir()
     ct.to_yaml(f"{d}/rt.yaml")
     return CircuitTemplate.from_yaml(f"{d}/rt/{ct.name}")
+
+
+def _decoy(spec):
+    """the same model with other numbers: every edge weight and every per-node value changed"""
+    import copy
+    from fractions import Fraction as F
+    d = copy.deepcopy(spec)
+    for e in d.edges:
+        e.weight = (e.weight if e.weight is not None else F(1)) + F(3, 8)
+    for ns in d.nodes.values():
+        for k in list(ns.overrides):
+            ns.overrides[k] = ns.overrides[k] + F(5, 8)
+    return d
+
+
+def build_rewritten(spec, how):
+    """a file that is written, loaded, written AGAIN with other contents and loaded again (template caches cleared in
+    between, as a user who edits a model file between two loads would): the second load must see the second contents.
+    how = 'yaml' (hand-written text) | 'roundtrip' (to_yaml of Python-built templates)"""
+    from pyrates import CircuitTemplate, clear_frontend_caches
+    from .spec import build_python
+    from . import tv
+    d = tv.scratch_dir()
+    for sp in (_decoy(spec), spec):
+        if how == 'yaml':
+            with open(os.path.join(d, 'model.yaml'), 'w') as f:
+                f.write(spec_to_yaml_text(sp))
+            ct = CircuitTemplate.from_yaml(f"{d}/model/top")
+        else:
+            build_python(sp).to_yaml(f"{d}/rt.yaml")
+            ct = CircuitTemplate.from_yaml(f"{d}/rt/{sp.name}")
+        clear_frontend_caches()
+    return ct
